@@ -1,5 +1,8 @@
 """C11 — exactly one reply per admitted query, whatever upstreams do (work in progress)."""
 
+_SRV_RW = {"server": ["sync"], "middleware": ["sync"], "middleware/edns": ["sync"], "middleware/cache": ["sync"],
+           "internal/wire": ["sync"], "internal/cache": ["sync"], "internal/dnsclient": ["sync"]}
+
 CHECK = {
     "level": "model_checking",
     "engines": ["sched", "event"],
@@ -14,5 +17,16 @@ CHECK = {
                       "harness": {"internal/waitgroup": ["zz_verif_c11_*.go"]},
                       "rewrite": {"internal/waitgroup": ["sync", "sync/atomic"]}, "gomaxprocs": 1,
                       "budget_s": {"quick": 40, "thorough": 300}},
+        "writer": {"pkg": "middleware", "run": "TestVerifC11Writer",
+                   "harness": {"middleware": ["zz_verif_c11_*.go"]}, "shards": 4,
+                   "budget_s": {"quick": 30, "thorough": 120}},
+        "dedup": {"pkg": "middleware/cache", "run": "TestVerifC11Dedup",
+                  "harness": {"middleware/cache": ["zz_verif_common_test.go", "zz_verif_c11_*.go"], "middleware": ["zz_verif_export.go"]},
+                  "stub_tests": ["middleware/cache"], "gomaxprocs": 2,
+                  "budget_s": {"quick": 60, "thorough": 500}},
+        "tcp": {"pkg": "server", "run": "TestVerifC11TCP",
+                "harness": {"server": ["zz_verif_c11_*.go"], "middleware": ["zz_verif_export.go"]},
+                "rewrite": _SRV_RW, "gomaxprocs": 2,
+                "budget_s": {"quick": 60, "thorough": 600}},
     },
 }
